@@ -145,9 +145,11 @@ def splitGcodeScript (t : Option Text) : Except PyErr (Option (List Text)) :=
   | none => .ok none
   | some s => do
     let (lines, _) ← ({} : Parser).parseLines (some s)
-    .ok (some ((lines.map (fun g => g.stringify (includeLeadingWhitespace := false)
+    let cmds := (lines.map (fun g => g.stringify (includeLeadingWhitespace := false)
         (includeLineNumber := false) (includeComment := false) (includeEol := false))).filter
-          (fun l => !l.isEmpty)))
+          (fun l => !l.isEmpty)
+    -- `if (not gcodeCommands): gcodeCommands = None`
+    .ok (if cmds.isEmpty then none else some cmds)
 
 /-- `commandString` (the cache is not modelled: it is reset by every setter) -/
 def Parser.commandString (p : Parser) : Text :=
